@@ -116,6 +116,22 @@ class Env(object):
             self.ex.assume.append(z3.Real("EPS") == 0)
             self.ex.eps_zero = True
 
+    def assume_power(self, v, k, expr):
+        """equational assumption  v**k == expr  for an input scalar v (e.g. z^2 = 1 - x^2 - y^2 on the unit sphere); also used
+        as a rewrite rule when obligations are normalised"""
+        if self.sym:
+            lhs = v
+            for _ in range(k - 1):
+                lhs = lhs * v
+            self.ex.assume.append((lhs == expr).z)
+            rules = getattr(self.ex, "rules", None)
+            if rules is None:
+                rules = self.ex.rules = {}
+            rules[("v", lift(v).args[0])] = (k, poly.Normalizer()(lift(expr)))
+        else:
+            if abs(float(v) ** k - float(expr)) > 1e-9:
+                raise OutsideDomain()
+
     def eps_real(self):
         """finiteness is decided with the regularisers at their real value 1e-16 (DESIGN.md 2.2)"""
         if self.sym:
@@ -226,7 +242,7 @@ def decide(ex, got, want, timeout_ms, extra=()):
         memo = {}
         got, want = dag.subst(got, m0, memo), dag.subst(want, m0, memo)
     try:
-        D = poly.normalized_difference(got, want)
+        D = poly.reduce_poly(poly.normalized_difference(got, want), getattr(ex, "rules", None))
     except (poly.TooBig, NotImplementedError, RecursionError):
         D = None
     if D is not None:
@@ -347,8 +363,9 @@ def run_symbolic(h, mods, cfg, timeout_ms=20000, max_paths=64, label=""):
                 g = _e(ob.got)
                 if getattr(ex, "eps_zero", False):
                     g = dag.subst(g, {dag.var("EPS"): ZERO})
+                P = None
                 try:
-                    P = poly.Normalizer()(g)
+                    P = poly.reduce_poly(poly.Normalizer()(g), getattr(ex, "rules", None))
                     PL = poly.PolyLower()
                     zg = PL.poly(P)
                     side = PL.side + PL.congruence()
@@ -356,9 +373,19 @@ def run_symbolic(h, mods, cfg, timeout_ms=20000, max_paths=64, label=""):
                     zg = ex.low(g)
                     side = list(ex.low.side) + ex.low.congruence()
                 cons = list(ex.assume) + ex.path_constraints() + list(ex.low.side) + side + [zg < 0]
-                v, dt, m, s = solve(cons, timeout_ms, want_model=True)
+                v, dt, m, s = solve(cons, timeout_ms if P is None else max(2000, timeout_ms // 4), want_model=True)
                 t_solver += dt
-                rec = Record(kind="nonneg", name=label + "/" + ob.name, path=pid, verdict=v, t=round(dt, 4), size=dag.size(g), trivial=False, phase="normalised")
+                phase = "normalised"
+                if v == "unknown" and P is not None:
+                    # monomial-box abstraction (sound for unsat): every variable is confined to [-1, 1] by the harness, so each
+                    # monomial with positive integer exponents lies in [-1, 1]; replace it by a fresh bounded symbol -> linear query
+                    ab = _box_abstraction(P, env)
+                    if ab is not None:
+                        v2, dt2, _, _ = solve(ab, timeout_ms)
+                        t_solver += dt2
+                        if v2 == "unsat":
+                            v, phase = "unsat", "monomial-box-abstraction"
+                rec = Record(kind="nonneg", name=label + "/" + ob.name, path=pid, verdict=v, t=round(dt, 4), size=dag.size(g), trivial=False, phase=phase)
                 if v == "sat":
                     mv = model_values(m, names + ["EPS"])
                     rec["model"] = {k: str(val) for k, val in mv.items()}
@@ -402,6 +429,53 @@ def run_symbolic(h, mods, cfg, timeout_ms=20000, max_paths=64, label=""):
                 rec["model_float"] = {k: float(val) for k, val in mv.items()}
             recs.append(rec)
     return dict(records=recs, paths=npaths, solver_time=t_solver, feas_queries=nfeas)
+
+
+def _prime_power(p, ex):
+    """p ** ex (Fraction exponent) as a Fraction, 40 significant digits"""
+    import decimal
+    ctx = decimal.Context(prec=45)
+    v = ctx.power(decimal.Decimal(p), decimal.Decimal(ex.numerator) / decimal.Decimal(ex.denominator))
+    return Fraction(v)
+
+
+def _box_abstraction(P, env):
+    """constraints  sum_m c_m t_m < 0,  -1 <= t_m <= 1  for a polynomial whose variables are all bounded by [-1, 1];
+    irrational constant factors (prime powers) are evaluated to 40 digits and monomials with the same variable part merged;
+    the evaluation error is covered by a 1e-30 relative slack per term"""
+    merged = {}
+    slack = Fraction(0)
+    for mono, c in P.items():
+        coef = Fraction(c)
+        vpart = []
+        for key, ex in mono:
+            if key[0] == "c":
+                coef *= _prime_power(key[1], ex)
+                continue
+            if key == ("v", "PI"):
+                coef *= _prime_power("3.14159265358979323846264338327950288419716939937510", ex)
+                continue
+            if key[0] != "v" or ex.denominator != 1 or ex < 0:
+                return None
+            d = env.doms.get(key[1])
+            if d is None or d[1] is None or d[2] is None or Fraction(d[1]) < -1 or Fraction(d[2]) > 1:
+                return None
+            vpart.append((key, ex))
+        slack += abs(coef) / 10 ** 30
+        vp = tuple(vpart)
+        merged[vp] = merged.get(vp, 0) + coef
+    terms = [z3.RealVal(str(-slack))]
+    cons = []
+    k = 0
+    for vp, coef in merged.items():
+        if not vp:
+            terms.append(z3.RealVal(str(coef)))
+            continue
+        t = z3.Real("box!%d" % k)
+        k += 1
+        cons += [t >= -1, t <= 1]
+        terms.append(z3.RealVal(str(coef)) * t)
+    return cons + [z3.Sum(terms) < 0]
 
 
 def _partial_nodes(e, acc, seen):
